@@ -182,6 +182,13 @@ def check_taw_def(prog, fv, r):
         for x in walk(e):
             if isinstance(x, tuple) and x and x[0] == "agg" and x[1] == "closure":
                 clos.append(x[2])
+            # the predicate may also be a function item: `.any(AttributeError::demands_withdraw)`
+            if isinstance(x, tuple) and x and x[0] == "call" and x[1].endswith("Iterator::any"):
+                for a in x[2][1:]:
+                    for y in walk(a):
+                        if isinstance(y, tuple) and y and y[0] == "fnref":
+                            ks = [k for k in prog.by_name.get(y[1], []) if k in prog.ix]
+                            clos.extend(ks[:1])
             if isinstance(x, tuple) and x and x[0] == "call" and x[1].endswith("Iterator::any") and "error_attrs" not in expr_vars(x):
                 pass
     if mentions_mm:
